@@ -55,14 +55,24 @@ class SearchLoop:
         if d.stmt is self.adv_assign and d.slot == (self.src_slot,):
             return "local", None
         v = d.value
-        if d.kind == "assign" and isinstance(v, ast.BinOp) and isinstance(v.op, ast.Add):
-            for a, b in ((v.left, v.right), (v.right, v.left)):
-                ar = _find_arange(a)
-                if ar is not None and isinstance(b, ast.Name):
-                    ks = {self.index_kind(x, depth + 1)[0] for x in self.rd.defs_of(b)}
-                    if ks == {"local"}:
-                        return "flat", ar
-                    return "unknown", None
+        if d.kind == "assign" and v is not None:
+            # as written first; then with temporaries forward-substituted (`offsets = arange(..).unsqueeze(1)`) and shape-only
+            # wrappers removed. Only the first-level temporaries of the index expression are substituted, so that the stride
+            # and stop of the arange keep the names the stride rule compares.
+            if not hasattr(self, "_inl"):
+                from sa.inline import Inliner
+                self._inl = Inliner(self.f.node, self.rd, max_depth=1)
+            for ve, defs_of in ((v, self.rd.defs_of), (self._inl.expand(v), self._inl.defs_of)):
+                while isinstance(ve, ast.Call) and isinstance(ve.func, ast.Attribute) and ve.func.attr in ("flatten", "view", "reshape", "contiguous"):
+                    ve = ve.func.value
+                if isinstance(ve, ast.BinOp) and isinstance(ve.op, ast.Add):
+                    for a, b in ((ve.left, ve.right), (ve.right, ve.left)):
+                        ar = _find_arange(a)
+                        if ar is not None and isinstance(b, ast.Name):
+                            ks = {self.index_kind(x, depth + 1)[0] for x in defs_of(b)}
+                            if ks == {"local"}:
+                                return "flat", ar
+                            return "unknown", None
         if d.kind == "assign" and isinstance(v, ast.Call) and call_name(v) == "torch.cat" and v.args \
                 and isinstance(v.args[0], (ast.List, ast.Tuple)) and v.args[0].elts:
             first = v.args[0].elts[0]
@@ -294,20 +304,24 @@ def finished_mass_on_eos(ctx, f, clause: str, floor: int = 1):
             e = e.func.value
         return e
 
+    from sa.inline import Inliner
+    inl = Inliner(f.node, rd)
+
     def mask_base(e):
-        """(base Name node, has one_hot factor) of a mask expression, through one level of names."""
-        e = strip_shape(e)
-        if isinstance(e, ast.Name):
-            ds = list(rd.defs_of(e))
-            if len(ds) == 1 and ds[0].kind == "assign" and isinstance(ds[0].value, ast.BinOp):
-                return mask_base(ds[0].value)
-            return e, False
-        if isinstance(e, ast.BinOp) and isinstance(e.op, ast.BitAnd):
-            sides = [strip_shape(e.left), strip_shape(e.right)]
-            oh = [s for s in sides if any(isinstance(x, ast.Call) and u(x.func).endswith("one_hot") for x in ast.walk(s))]
-            rest = [s for s in sides if s not in oh]
-            if len(oh) == 1 and len(rest) == 1 and isinstance(rest[0], ast.Name):
-                return rest[0], True
+        """(base Name node of the function, has one_hot factor) of a mask expression; temporaries are forward-substituted."""
+        e = strip_shape(inl.expand(e))
+        conj = []
+
+        def flat(x):
+            if isinstance(x, ast.BinOp) and isinstance(x.op, ast.BitAnd):
+                flat(x.left), flat(x.right)
+            else:
+                conj.append(strip_shape(x))
+        flat(e)
+        oh = [s for s in conj if any(isinstance(x, ast.Call) and u(x.func).endswith("one_hot") for x in ast.walk(s))]
+        rest = [s for s in conj if s not in oh]
+        if len(rest) == 1 and isinstance(rest[0], ast.Name) and len(oh) <= 1:
+            return inl.orig.get(id(rest[0]), rest[0]), bool(oh)
         return None, False
 
     def same_value(a, b):
